@@ -19,6 +19,7 @@ inductive ValidOps : List Nat → List Nat → List Op → Prop
   | write {opn used i ops} : i ∈ opn → ValidOps opn used ops → ValidOps opn used (.write i :: ops)
   | stop {opn used i ops} : i ∈ opn → ValidOps (opn.erase i) used ops → ValidOps opn used (.stop i :: ops)
   | discard {opn used i ops} : i ∈ opn → ValidOps (opn.erase i) used ops → ValidOps opn used (.discard i :: ops)
+  | startFail {opn used i ops} : i ∉ used → ValidOps opn (i :: used) ops → ValidOps opn used (.startFail i :: ops)
 
 /-- every crash point along a valid operation sequence, from any state satisfying the boundary invariant
 (`Proofs.FSC10`: `Boundary`, `Safe`, one lemma per operation), is safe -/
@@ -46,6 +47,10 @@ theorem crash_safe {opn used : List Nat} {ops : List Op} (h : ValidOps opn used 
     intro d hb pre hp
     rw [List.flatMap_cons] at hp
     exact seq_safe (op_discard i hb) ih hp
+  | startFail hi _ ih =>
+    intro d hb pre hp
+    rw [List.flatMap_cons] at hp
+    exact seq_safe (op_startFail hb hi) ih hp
 
 /-- (i) at EVERY crash point every `.cptv` name is a complete recording that was never written in place -/
 theorem c10_every_crash_point_ok (ops : List Op) (h : ValidOps [] [] ops) (pre : List Sys)
@@ -132,6 +137,14 @@ example : (Dir.run {} (exOps.flatMap Op.steps)).cleanup.files = [(⟨0, .F⟩, .
 /-- a crash in the middle of `stop 0` (after `unlink S`, before the rename): no `.cptv` yet -/
 example : (Dir.run {} ((exOps.flatMap Op.steps).take 14)).files =
     [(⟨1, .T⟩, .partialData), (⟨1, .S⟩, .partialData), (⟨0, .T⟩, .partialData)] := by decide
+
+/-- a start that fails while the header is written leaves a partial `T` (no `S`, no `.cptv`); the next start
+uses a fresh name and completes; clean-up removes the debris -/
+private def exFail : List Op := [.startFail 0, .start 1, .write 1, .stop 1]
+example : ValidOps [] [] exFail :=
+  .startFail (by decide) <| .start (by decide) <| .write (by decide) <| .stop (by decide) .nil
+example : (Dir.run {} (exFail.flatMap Op.steps)).files = [(⟨1, .F⟩, .complete), (⟨0, .T⟩, .partialData)] := by decide
+example : (Dir.run {} (exFail.flatMap Op.steps)).cleanup.files = [(⟨1, .F⟩, .complete)] := by decide
 
 /-- the monitor rejects writing under the final name … -/
 example : (Dir.run {} [.creat ⟨0, .F⟩]).ok = false := by decide
